@@ -78,7 +78,6 @@ def split_prefix(leaf, start_pos):
     line, column = start_pos
     start = 0
     value = spacing = ''
-    bom = False
     while start != len(leaf.prefix):
         match = _regex.match(leaf.prefix, start)
         spacing = match.group(1)
@@ -88,10 +87,11 @@ def split_prefix(leaf, start_pos):
         type_ = _types[value[0]]
         yield PrefixPart(
             leaf, type_, value, spacing,
-            start_pos=(line, column + start - int(bom) + len(spacing))
+            start_pos=(line, column + start + len(spacing))
         )
         if type_ == 'bom':
-            bom = True
+            # The bom doesn't have a length at the start of a Python file.
+            column -= 1
 
         start = match.end(0)
         if value.endswith('\n') or value.endswith('\r'):
